@@ -1782,7 +1782,25 @@ func (db *DB) Dump(w io.Writer, tableNames ...string) error {
 	// Do indexes, triggers, and views.
 	query := `SELECT "name", "type", "sql" FROM "sqlite_master"
 			  WHERE "sql" NOT NULL AND "type" IN ('index', 'trigger', 'view')`
-	rows, err = db.queryWithConn(ctx, commReq(query), false, conn)
+	idxReq := commReq(query)
+	if len(tableNames) > 0 {
+		// Indexes and triggers belong to exactly one table. When only some tables
+		// are dumped, an index or trigger of a table which is not part of the dump
+		// would make the dump impossible to load (no such table).
+		var sb strings.Builder
+		sb.WriteString(query + ` AND ("type" = 'view' OR "tbl_name" IN (`)
+		for i, name := range tableNames {
+			if i > 0 {
+				sb.WriteString(", ")
+			}
+			sb.WriteString("?")
+			idxReq.Statements[0].Parameters = append(idxReq.Statements[0].Parameters,
+				&command.Parameter{Value: &command.Parameter_S{S: name}})
+		}
+		sb.WriteString("))")
+		idxReq.Statements[0].Sql = sb.String()
+	}
+	rows, err = db.queryWithConn(ctx, idxReq, false, conn)
 	if err != nil {
 		return err
 	}
